@@ -10,7 +10,7 @@ def dispatch (c : Case) : Verdict :=
   let fam := c.op
   if fam.startsWith "hex" || fam.startsWith "b64" || fam == "blk.enc" || fam == "blk.dec" then Driver.Codec.handle c
   else if fam == "conv" || fam == "blk.conv" || fam == "reval" then Driver.Conv.handle c
-  else if fam == "hist" then Driver.Pool.handle c
+  else if fam == "hist" || fam == "fault" then Driver.Pool.handle c
   else if fam == "shist" || fam == "sfault" then Driver.Str.handle c
   else { corr := false, why := "no handler for op " ++ c.op }
 
